@@ -24,6 +24,8 @@ pub fn gen_stmt(
                 if let Node::Id { lit } = &name.node {
                     let raises = HashSet::from_iter([TrueName::from(lit.as_str())]);
                     check_raises_caught(&raises, env, ctx, ast.pos)?;
+                    // the raised value is an ordinary constructor call: its arguments are checked
+                    generate(error, env, ctx, constr)?;
                     Ok(env.clone())
                 } else {
                     Err(vec![TypeErr::new(
